@@ -195,6 +195,12 @@ type world struct {
 	rtspOrigin *rtspOrigin
 	notify     *notifySink
 
+	portMu     sync.Mutex
+	busyUDP    *net.UDPConn // bound by the harness for the whole repetition: a start_rtp_pub on these ports cannot listen
+	busyTCP    net.Listener
+	rtpPortUDP []int // ports lal handed out to rtp pubs of this process
+	rtpPortTCP []int
+
 	hlsH    *hls.ServerHandler // L2: a handler of our own with the manager as observer
 	hlsAddr string             // L3: the manager's HLS listener
 	runErr  chan error
@@ -269,6 +275,44 @@ func holdThenMarshal(arg int, v interface{}) {
 // advanceClock: with Case.FpsClock the harness owns nazalog.Clock (lal reads it only for the per-second video frame
 // statistics of a group): one second per published message, so that the 32-second ring of a group fills within
 // a workload instead of after half a minute of stream.
+func (w *world) busyPort(tcp bool) int {
+	if tcp {
+		if w.busyTCP != nil {
+			return w.busyTCP.Addr().(*net.TCPAddr).Port
+		}
+		return 0
+	}
+	if w.busyUDP != nil {
+		return w.busyUDP.LocalAddr().(*net.UDPAddr).Port
+	}
+	return 0
+}
+
+func (w *world) noteRtpPort(tcp bool, port int) {
+	w.portMu.Lock()
+	defer w.portMu.Unlock()
+	if tcp {
+		w.rtpPortTCP = append(w.rtpPortTCP, port)
+	} else {
+		w.rtpPortUDP = append(w.rtpPortUDP, port)
+	}
+}
+
+func (w *world) recentRtpPort(tcp bool) int {
+	w.portMu.Lock()
+	defer w.portMu.Unlock()
+	l := w.rtpPortUDP
+	if tcp {
+		l = w.rtpPortTCP
+	}
+	if len(l) == 0 {
+		return w.busyPortLocked(tcp)
+	}
+	return l[len(l)-1]
+}
+
+func (w *world) busyPortLocked(tcp bool) int { return w.busyPort(tcp) }
+
 func (w *world) advanceClock() {
 	if w.c.FpsClock {
 		nazalog.Clock.Add(time.Second)
@@ -528,15 +572,34 @@ func (k *worker) do(oi int, op Op) {
 		w.call(sl, "CtrlStopRelayPull", func() { _ = s.SM.CtrlStopRelayPull(name) })
 	case "rtp-pub":
 		tcp := op.Arg%3 == 2
+		// the port: 0 (lal chooses) in 3 of 5; a port lal handed out to an earlier rtp pub of this process (still bound
+		// unless that session has ended); a port the harness keeps bound itself (the listen must fail). A refused start is
+		// fine, what follows it must still be served.
+		reqPort := 0
+		switch op.Arg / 2 {
+		case 3:
+			reqPort = w.recentRtpPort(tcp)
+		case 4:
+			reqPort = w.busyPort(tcp)
+		}
+		if reqPort != 0 {
+			// on a stream of its own, so that the request is not refused for the stream's input before it tries to listen
+			name = fmt.Sprintf("c20p%dx%dx%d", k.idx, oi, w.freshSeq.Add(1))
+			count("rtp-pub-fixed-port", 1)
+		}
 		var resp base.ApiCtrlStartRtpPubResp
 		w.call(sl, "CtrlStartRtpPub", func() {
-			resp = s.SM.CtrlStartRtpPub(base.ApiCtrlStartRtpPubReq{StreamName: name, Port: 0, TimeoutMs: []int{0, 1000}[op.Arg%2], IsTcpFlag: map[bool]int{true: 1}[tcp]})
+			resp = s.SM.CtrlStartRtpPub(base.ApiCtrlStartRtpPubReq{StreamName: name, Port: reqPort, TimeoutMs: []int{0, 1000}[op.Arg%2], IsTcpFlag: map[bool]int{true: 1}[tcp]})
 		})
 		if resp.ErrorCode != base.ErrorCodeSucc {
-			return // refused: the stream has an input (or no port)
+			if reqPort != 0 {
+				count("rtp-pub-port-refused", 1)
+			}
+			return // refused: the stream has an input, or the port cannot be bound
 		}
 		count("rtp-pub", 1)
 		id, port := resp.Data.SessionId, resp.Data.Port
+		w.noteRtpPort(tcp, port)
 		video := codecOf(w.c, op.Arg).Video
 		if video == "" {
 			video = "avc"
@@ -765,6 +828,9 @@ func (w *world) start() {
 		}
 		time.Sleep(100 * time.Millisecond)
 	}
+	// lal listens on all interfaces (":port"): so do the busy ports
+	w.busyUDP, _ = net.ListenUDP("udp", &net.UDPAddr{})
+	w.busyTCP, _ = net.Listen("tcp", ":0")
 	if c.Notify {
 		if w.notify, err = newNotifySink(c.NotifyDelayMs); err != nil {
 			harnessFail("notify sink listen: %v", err)
@@ -985,6 +1051,12 @@ func (w *world) runRep() {
 	fsl.guard("harness session goroutines end after Dispose", func() {
 		w.origin.Close()
 		w.rtspOrigin.Close()
+		if w.busyUDP != nil {
+			_ = w.busyUDP.Close()
+		}
+		if w.busyTCP != nil {
+			_ = w.busyTCP.Close()
+		}
 		if w.notify != nil {
 			w.notify.Close()
 		}
